@@ -16,7 +16,8 @@ Spec == Init /\ [][Next]_vars
 
 \* token of a kind: kinds are token type names, except "BADINT" (an INT that strconv rejects)
 TokOf(k, first) ==
-  [ty |-> IF k = "BADINT" THEN "INT" ELSE k, lit |-> k, nl |-> (nl /\ ~first), ok |-> k # "BADINT"]
+  [ty |-> IF k \in {"BADINT", "BIGINT"} THEN "INT" ELSE IF k = "BIGFLOAT" THEN "FLOAT" ELSE k, lit |-> k, nl |-> (nl /\ ~first),
+   ok |-> k \notin {"BADINT", "BIGINT", "BIGFLOAT"}]
 Toks == [j \in 1..(Len(ks) + 1) |->
            IF j <= Len(ks) THEN TokOf(ks[j], j = 1) ELSE [ty |-> "EOF", lit |-> "", nl |-> nl /\ Len(ks) > 0, ok |-> TRUE]]
 
@@ -36,7 +37,7 @@ Inv == /\ \A m \in Modes :
 
 QKinds == {"IDENT", "INT", "STRING", "LET", "FUNCTION", "RETURN", "IF", "ELSE", "WHILE", "FOR",
            "LPAREN", "RPAREN", "LBRACE", "RBRACE", "LBRACKET", "RBRACKET", "COMMA", "SEMICOLON",
-           "COLON", "DOT", "ASSIGN", "PLUS", "INCREMENT", "NOT", "MINUS_ASSIGN", "BADINT"}
+           "COLON", "DOT", "ASSIGN", "PLUS", "INCREMENT", "NOT", "MINUS_ASSIGN", "BADINT", "BIGINT", "BIGFLOAT"}
 SKinds == {"IDENT", "INT", "LET", "FUNCTION", "RETURN", "IF", "ELSE", "LPAREN", "RPAREN", "LBRACE",
            "RBRACE", "SEMICOLON", "ASSIGN", "INCREMENT"}
 XKinds == {"IDENT", "LET", "FUNCTION", "IF", "LPAREN", "RPAREN", "LBRACE", "RBRACE", "ASSIGN"}
